@@ -310,7 +310,9 @@ def run(repo: Repo) -> Result:
         # path conditions: the plural lookups run exactly where both are `is not None`, the singular
         # lookups exactly where that is ruled out (whichever way round the branches are written)
         from ..guards import conditions as _conds26
+        from ..guards import entry_conditions as _entry_conds26
 
+        _entry26 = _entry_conds26(tr.node)
         both = {f"{p_vars[0]} is not None", f"{n_vars[0]} is not None"}
         neither = {f"{p_vars[0]} is None", f"{n_vars[0]} is None"}
         n_pl = n_sg = 0
@@ -318,6 +320,9 @@ def run(repo: Repo) -> Result:
         for st26, cs26 in _conds26(tr.node):
             if isinstance(st26, (ast.If, ast.For, ast.While, ast.With, ast.Try)):
                 continue
+            # which branch the call sits in (the values tested at the branch, not what `plural` is
+            # after it has been stringified inside the branch)
+            cs26 = list(cs26) + list(_entry26.get(id(st26), []))
             have = {_canon(c) for c in cs26}
             for c26 in ast.walk(st26):
                 if isinstance(c26, ast.Call) and isinstance(c26.func, ast.Attribute) and isinstance(c26.func.value, ast.Name) and c26.func.value.id != "self":
